@@ -91,6 +91,11 @@ class G:
         ms = []
         left = total
         while left:
+            if (total - left) % 8 == 0 and left >= 16 and r.random() < 0.3:
+                # a byte-oriented island inside the bit region
+                ms.append([self.nm(), ["Bytewise", r.choice([["name", "Int16ub"], ["name", "Int16ul"], ["name", "Int16sb"], ["Bytes", 2], ["Padding", 2]])]])
+                left -= 16
+                continue
             w = r.randint(1, min(left, 12))
             c = r.random()
             if w == 1 and c < 0.3:
@@ -230,7 +235,7 @@ def compare(r, node, cv, path):
     k = r[0]
     if k == "Renamed":
         return compare(r[2], node, cv, path)
-    if k in ("Hex", "Default", "Rebuild"):
+    if k in ("Hex", "Default", "Rebuild", "Bytewise"):
         return compare(r[1], node, cv, path)
     if k == "Struct" or k == "BitStruct":
         ms = r[1]
@@ -535,7 +540,7 @@ def run(ctx):
     rng = ctx.rng
     monitors.install_ruamel_stub()
     monitors.MEMBERS.install()
-    n = ctx.pick(800, 12000) // ctx.nworkers
+    n = ctx.pick(5000, 80000) // ctx.nworkers
     for i in range(n):
         g = G(rng)
         r = g.top(rng.choice([1, 2, 2, 3]))
@@ -557,7 +562,7 @@ def run(ctx):
             run_recipe(ctx, rng, ["Struct", [["e", ["Enum", sub, [["one", 1], ["two", 2]]]], ["arr", ["Array", 2, ["Enum", sub, [["one", 1]]]]]]])
     # single-member structs for every leaf kind (so that one defect does not mask the others)
     g = G(rng)
-    for i in range(ctx.pick(400, 3000) // ctx.nworkers):
+    for i in range(ctx.pick(2000, 20000) // ctx.nworkers):
         leaf = g.node(rng.choice([0, 1]), True, [])
         run_recipe(ctx, rng, ["Struct", [["h", B], ["x", leaf]]])
 
